@@ -23,7 +23,7 @@ for f in sorted(glob.glob("/verif/seeded/C*/meta.json")):
 out = ["# Seeded changes", "",
        "Each directory holds `patch.diff` (applies to /repo at the pinned commit plus the `fix:` commits), `demo_test.go` (fails with the patch, passes without)",
        "and `meta.json` (author's description, my confirmation log, and the result of running the check of its property: `tools/mutants.py run <id>`).",
-       "m1-m3: first round; m4-m6: second round (authors asked for less obvious ideas). `harmless/` holds behaviour-preserving rewrites on which every check must stay quiet.", "",
+       "Numbering per property in the order of the five rounds (see DESIGN.md §6): m1-m3 first round, m4-m6 second (less obvious ideas), then round 3 (evasive; nine properties), round 4 (three each: multi-step, cooperating sites, almost-right optimisations) and round 5 (two each: history of calls, window edges, integer widths, rare class combinations). `harmless/` holds behaviour-preserving rewrites on which every check must stay quiet.", "",
        "| id | change | check of its property (quick tier) |", "|---|---|---|"] + rows + [""]
 open("/verif/seeded/README.md", "w").write("\n".join(out))
 print(len(rows), "rows")
